@@ -24,6 +24,8 @@ ASSUMPTIONS = [
     "workflow template: main -> n branches mid(i) -> leaf(x); per branch the solver chooses among %r; leaf demand {'r': count} "
     "or ['r'], optionally mid demands ['r'] too, optionally one branch with an unknown executor; n = 3 (quick) / 4 (thorough)",
     "limit: symbolic int >= 1 (or unconfigured = 1); count: symbolic int with 1 <= count <= limit",
+    "two-resource template: main -> n leaves, each demanding a solver-chosen combination of the resources a and b (list form in "
+    "both orders, dict form, nothing); limits of a and b symbolic ints >= 1",
 ]
 
 # per-branch menu: (x, fail, caught, nocache)
@@ -91,6 +93,65 @@ def c08_limits(k: int) -> bool:
     return guard(body, k=k)
 
 
+# ---- second template: two resources -------------------------------------------------------------------------------
+from redun import task  # noqa: E402
+
+DEMANDS = [["a"], ["b"], ["a", "b"], ["b", "a"], {"a": 1, "b": 1}, []]
+
+
+@task(name="tr_leaf", namespace=P.NS, version="1", cache=False)
+def tr_leaf(salt, i):
+    return i
+
+
+@task(name="tr_main", namespace=P.NS, version="1", cache=False)
+def tr_main(salt, spec):
+    return [tr_leaf.options(limits=DEMANDS[d])(salt, i) for i, d in enumerate(spec)]
+
+
+_TRN = [0]
+
+
+def two_resource_case(spec, pick, la, lb, early, symbolic):
+    """n leaves, each demanding a solver-chosen combination of the resources a and b.  Returns None or a description."""
+    import os
+    from vp.stubs.schedlab import Lab
+    _TRN[0] += 1
+    lab = Lab(pick, limits={"a": la, "b": lb}, early=early, symbolic=symbolic, resources=("a", "b"), fifo_tasks=("tr_main",))
+    outcome = lab.run(tr_main("t%d_%d" % (os.getpid(), _TRN[0]), list(spec)))
+    if lab.violations:
+        return lab.violations[0]
+    if outcome[0] == "deadlock":
+        return None  # termination is C09's subject
+    if outcome[0] != "ok" or list(outcome[1]) != list(range(len(spec))):
+        return "run ended with %r" % (outcome,)
+
+    def end():
+        for r in ("a", "b"):
+            if lab.sched.limits_used[r] != 0:
+                return "run finished but the scheduler still accounts %r unit(s) of %r in use" % (lab.sched.limits_used[r], r)
+        return None
+    if symbolic:
+        with ResumedTracing():
+            return end()
+    return end()
+
+
+def c08_two_resources(k: int) -> bool:
+    """
+    post: _
+    """
+    def body():
+        n, first, early, menu = SL()
+        spec = [first] + [choose(menu, "demand") for _ in range(n - 1)]
+        la = fresh(int, "limit_a")
+        lb = fresh(int, "limit_b")
+        assume(la >= 1)
+        assume(lb >= 1)
+        return native(lambda: two_resource_case(spec, choose, la, lb, early, True) is None)
+    return guard(body, k=k)
+
+
 _NB = len(BRANCH)
 # slice = (branches, first branch, early mode, limit form, mid demands too, unknown-executor branch, menu size)
 DUP4 = [(0, 0, 0, 0), (1, 0, 0, 0), (1, 0, 0, 0), (2, 0, 0, 0)]  # four leaves, two of them the same call
@@ -98,20 +159,43 @@ ABC3 = [(0, 0, 0, 0), (1, 0, 0, 0), (2, 0, 0, 0)]  # three distinct leaves (used
 HET4 = [(0, 0, 0, 0), (1, 0, 0, 0), (5, 0, 0, 3), (2, 0, 0, 0)]  # two small jobs, one that needs the whole limit, a third small one
 ALLFAIL3 = [(0, 1, 0, 0), (1, 1, 0, 0), (2, 1, 0, 0)]  # three failing leaves (used under catch_all)
 FAIL4 = [(0, 0, 0, 0), (1, 1, 1, 0), (1, 0, 0, 0), (2, 1, 1, 0)]
+WRAPPED3 = [(1, 0, 0, 5), (1, 0, 0, 5), (0, 0, 0, 0)]  # the same NON-LEAF call (mid -> leaf, both may demand 'r') reached from two parents
 _Q = [(3, f, 0, 0, m, 0, NQ, None) for f in range(NQ) for m in (0, 1)] + [(2, 0, 1, 0, 1, 0, NQ, [BRANCH[1], BRANCH[1]]), (2, 0, 1, 0, 1, 0, NQ, [BRANCH[2], BRANCH[0]])] \
     + [(2, 1, 0, 2, 1, 1, NQ, None), (2, 2, 0, 1, 0, 1, NQ, None), (4, 0, 0, 0, 0, 0, NQ, DUP4), (4, 0, 0, 0, 1, 0, NQ, FAIL4),
-       (3, 0, 2, 1, 0, 0, NQ, ABC3), (4, 0, 0, 0, 0, 0, NQ, HET4), (3, 0, 0, 0, 0, 2, NQ, ALLFAIL3), (3, 0, 0, 0, 0, 2, NQ, None)]
+       (3, 0, 2, 1, 0, 0, NQ, ABC3), (4, 0, 0, 0, 0, 0, NQ, HET4), (3, 0, 0, 0, 0, 2, NQ, ALLFAIL3), (3, 0, 0, 0, 0, 2, NQ, None),
+       (3, 0, 0, 1, 1, 0, NQ, WRAPPED3), (3, 0, 0, 0, 1, 0, NQ, WRAPPED3)]
 _T = [(3, f, 0, form, m, b, _NB, None) for f in range(_NB) for form in (0, 1, 2) for m in (0, 1) for b in (0, 1)] \
     + [(3, f, 1, 0, m, 0, NQ, None) for f in range(NQ) for m in (0, 1)] + [(4, f, 0, 0, 1, 0, NQ, None) for f in range(NQ)] \
     + [(4, 0, 1, 0, 0, 0, NQ, DUP4), (4, 0, 1, 0, 1, 0, NQ, FAIL4), (3, 0, 2, 0, 0, 0, NQ, ABC3), (3, 0, 2, 0, 1, 0, NQ, ABC3),
-       (4, 0, 0, 0, 1, 0, NQ, HET4), (4, 0, 1, 0, 0, 0, NQ, HET4)] + [(3, f, 0, 0, m, 2, _NB, None) for f in range(_NB) for m in (0, 1)]
+       (4, 0, 0, 0, 1, 0, NQ, HET4), (4, 0, 1, 0, 0, 0, NQ, HET4), (3, 0, 1, 1, 1, 0, NQ, WRAPPED3), (3, 0, 0, 1, 0, 0, NQ, WRAPPED3)] + [(3, f, 0, 0, m, 2, _NB, None) for f in range(_NB) for m in (0, 1)]
 CONDITIONS = [
+    Condition(c08_two_resources, slices=[(3, d, 0, 4) for d in range(5)],
+              thorough_slices=[(3, d, e, 6) for d in range(5) for e in (0, 1)] + [(4, d, 0, 4) for d in (2, 3)],
+              timeout=300, thorough_timeout=1500,
+              bounds="slice = (leaves, demand of the first leaf as index into %r, early mode, size of the demand menu); the other leaves' demands and the "
+                     "completion schedule solver-chosen; the limits of a and b are symbolic ints >= 1" % (DEMANDS,)),
     Condition(c08_limits, slices=_Q, thorough_slices=_T, timeout=300, thorough_timeout=2400,
               bounds="slice = (branches, first branch, early-completion mode, limit form 0 dict demand/1 list demand/2 "
                      "unconfigured limit, mid task demands 'r' too, extra template 0 none / 1 a branch with an unknown executor / 2 all branches under one catch_all, size of the branch menu, fully fixed branch list or None); in late mode the trivial "
                      "mid / main / recover jobs complete first in submission order and only leaf completions are scheduled; "
                      "remaining branches and the completion schedule chosen by the solver; limit and count symbolic integers"),
 ]
+
+
+def replay_two(extra):
+    items = list(extra["choices"])
+    pos = [0]
+
+    def nxt():
+        v = items[pos[0]]
+        pos[0] += 1
+        return v[1]
+    n, first, early, menu = extra["slice"]
+    spec = [first] + [nxt() for _ in range(n - 1)]
+    la, lb = nxt(), nxt()
+    pick = lambda m, label: min(nxt(), m - 1) if pos[0] < len(items) else 0
+    v = two_resource_case(spec, pick, la, lb, early, False)
+    return (v is not None), "leaves demanding %r, limits a=%r b=%r: %s" % ([DEMANDS[d] for d in spec], la, lb, v), None
 
 
 def replay_case(extra):
@@ -143,6 +227,8 @@ def replay_case(extra):
 
 
 def replay(cond, args, extra):
+    if cond == "c08_two_resources":
+        return replay_two(extra)
     lab, outcome, desc, spec, with_bad = replay_case(extra)
     v = lab.violations[0] if lab.violations else None
     if v is None and outcome[0] == "ok" and lab.sched.limits_used["r"] != 0:
